@@ -33,6 +33,8 @@ type WriteSet struct {
 	// Readers: parameters (by index) whose reader position is advanced (reader model)
 	Readers      map[int]bool
 	ReaderCells  map[*ssa.Alloc]bool
+	// BufCells: local variables holding a *bytes.Buffer (created before the region) that the region writes to (buffer model)
+	BufCells map[*ssa.Alloc]bool
 	freshIn      func(*ssa.Alloc) bool
 	regionBlocks map[*ssa.BasicBlock]bool
 }
@@ -378,6 +380,11 @@ func (e *Engine) callWrites(cc *ssa.CallCommon, w *WriteSet, fn *ssa.Function, v
 		switch funcKey(f) {
 		case "golang.org/x/sync/errgroup.WithContext", "golang.org/x/sync/errgroup.Group.Wait",
 			"golang.org/x/sync/semaphore.Weighted.Acquire", "golang.org/x/sync/semaphore.Weighted.Release", "golang.org/x/sync/semaphore.Weighted.TryAcquire":
+			return
+		}
+		if ai, ok := bufOpArg(f); ok && ai < len(cc.Args) {
+			// a buffer-model operation: writes exactly the buffer it is given
+			e.noteBufWrite(cc.Args[ai], f, w, fn, inRegion)
 			return
 		}
 		if ai, ok := readerOpArg(f); ok && ai < len(cc.Args) {
